@@ -20,6 +20,7 @@ from .. import tlc
 from .c09 import tree
 
 _G = {}
+NAMES = [("colA", "colB"), ("resp-hand", "stim_type2"), ("Col_a", "col-B9"), ("a", "b-1_x")]
 A_TEXT = {"cat": "Square", "val": "Age/33", "hed": "Circle"}
 
 
@@ -40,13 +41,13 @@ def _cell(col, state, akind=None):
         return {"ok": "c1", "na": "n/a"}[state]
 
 
-def render_template(case, style, alive=None, subst=None):
+def render_template(case, style, alive=None, subst=None, names=("colA", "colB")):
     """template text (alive=None) or the expected text for a row (alive = surviving nodes, subst = ref texts)"""
     par, kind = case["par"], case["kind"]
     n = len(kind)
     sp = [", ", ",", " , ", ",  "][style % 4]
     lp, rp = [("(", ")"), ("( ", " )"), ("(", ")"), (" (", ") ")][style % 4]
-    aname = "HED" if case["akind"] == "hed" else "colA"
+    aname = "HED" if case["akind"] == "hed" else names[0]
 
     def node(k):
         kd = kind[k]
@@ -57,7 +58,7 @@ def render_template(case, style, alive=None, subst=None):
         if kd == "rA":
             return subst["A"] if subst else "{%s}" % aname
         if kd == "rB":
-            return subst["B"] if subst else "{colB}"
+            return subst["B"] if subst else "{%s}" % names[1]
         kids = [j for j in range(n) if par[j] == k + 1 and (alive is None or (j + 1) in alive)]
         return lp + sp.join(node(j) for j in kids) + rp
     top = [j for j in range(n) if par[j] == 0 and (alive is None or (j + 1) in alive)]
@@ -72,42 +73,57 @@ def has_empty_group(case):
 def build(case, seed):
     rng = random.Random(seed)
     style = rng.randrange(4)
-    tmpl = render_template(case, style)
+    names = NAMES[seed % len(NAMES)]
+    na, nb = names
+    tmpl = render_template(case, style, names=names)
     sidecar = {}
     if case["hkind"] == "cat":
         sidecar["host"] = {"HED": {"h1": tmpl}}
     else:
         sidecar["host"] = {"HED": tmpl + ", Label/#"}
-    uses_a = "rA" in case["kind"]
     if case["akind"] == "cat":
-        sidecar["colA"] = {"HED": {"a1": "Square"}}
+        sidecar[na] = {"HED": {"a1": "Square"}}
     elif case["akind"] == "val":
-        sidecar["colA"] = {"HED": "Age/#"}
-    sidecar["colB"] = {"HED": "Item-count/#"}
+        sidecar[na] = {"HED": "Age/#"}
+    sidecar[nb] = {"HED": "Item-count/#"}
     sidecar["colC"] = {"Description": "unreferenced", "HED": {"c1": "Triangle"}}
     sidecar["ignored"] = {"Description": "no HED here"}
-    cols = {"onset": [], "host": [], "colB": [], "colC": [], "ignored": []}
-    if case["akind"] == "hed":
-        cols["HED"] = []
-    else:
-        cols["colA"] = []
+    h2 = case.get("h2", "none")
+    aref = "HED" if case["akind"] == "hed" else na
+    if h2 != "none":
+        ref = {"A": "{%s}" % aref, "B": "{%s}" % nb}.get(h2)
+        sidecar["host2"] = {"HED": {"g1": ("(%s, Ellipse)" % ref) if ref else "(Ellipse)"}}
+    cols = {"onset": [], "host": [], nb: [], "colC": [], "ignored": []}
+    if h2 != "none":
+        cols["host2"] = []
+    acol = "HED" if case["akind"] == "hed" else na
+    cols[acol] = []
     expected = []
     for i, row in enumerate(case["rows"]):
         c = row["cells"]
         cols["onset"].append(str(1.0 + i))
         cols["host"].append(_cell("host_" + case["hkind"], c["h"]))
-        cols["HED" if case["akind"] == "hed" else "colA"].append(_cell("A", c["a"], case["akind"]))
-        cols["colB"].append(_cell("B", c["b"]))
+        cols[acol].append(_cell("A", c["a"], case["akind"]))
+        cols[nb].append(_cell("B", c["b"]))
         cols["colC"].append(_cell("C", c["c"]))
+        if h2 != "none":
+            cols["host2"].append({"ok": "g1", "na": "n/a"}[c.get("g", "na")])
         cols["ignored"].append(rng.choice(["x", "n/a", "7"]))
         subst = {"A": A_TEXT[case["akind"]], "B": "Item-count/7"}
         parts = []
         if c["h"] == "ok":
-            body = render_template(case, 0, alive=set(row["alive"]), subst=subst)
+            body = render_template(case, 0, alive=set(row["alive"]), subst=subst, names=names)
             if body:
                 parts.append(body)
             if case["hkind"] == "val":
                 parts.append("Label/abc")
+        hp = row.get("h2part", "none")
+        if hp == "withA":
+            parts.append("(%s, Ellipse)" % A_TEXT[case["akind"]])
+        elif hp == "withB":
+            parts.append("(Item-count/7, Ellipse)")
+        elif hp == "bare":
+            parts.append("(Ellipse)")
         for x in row["extras"]:
             parts.append({"A": A_TEXT[case["akind"]], "B": "Item-count/7", "C": "Triangle"}[x])
         expected.append(", ".join(parts))
@@ -219,7 +235,7 @@ def run(ctx):
         os.remove(made)
     seen = set()
     for j in rs.json_lines:
-        k = json.dumps([j["par"], j["kind"], j["akind"], j["hkind"]])
+        k = json.dumps([j["par"], j["kind"], j["akind"], j["hkind"], j.get("h2")])
         if len(j["kind"]) >= 5 and k not in seen and not has_empty_group(j):
             seen.add(k)
             cases.append(j)
@@ -230,7 +246,7 @@ def run(ctx):
     nrows = 0
     for ci, problems, sample in res:
         c = cases[ci]
-        ctx.case(json.dumps([c["par"], c["kind"], c["akind"], c["hkind"]]), nontrivial=("rA" in c["kind"] or "rB" in c["kind"]))
+        ctx.case(json.dumps([c["par"], c["kind"], c["akind"], c["hkind"], c.get("h2")]), nontrivial=("rA" in c["kind"] or "rB" in c["kind"] or c.get("h2") in ("A", "B")))
         ctx.traces += 1
         nrows += len(c["rows"])
         for kind, text in problems:
